@@ -68,6 +68,9 @@ func c12Exec(op string) string {
 	} else if err == nil && n == nil {
 		note = "NILMAP NewMap returned a nil Map (the empty projection is an empty Map)"
 	}
+	if note == "" && !strings.Contains(op, "#M:") && hashStr(op)%3 == 0 {
+		note = wrapNewXml(m, pairs)
+	}
 	// the JSON wrappers of NewMap fail exactly when NewMap fails, and return its Map
 	if note == "" && !strings.Contains(op, "#M:") { // (JSON text does not carry Go container types)
 		if jtxt, jerr := mxj.Map(m).Json(); jerr == nil {
@@ -278,6 +281,7 @@ func c12Gen(r *Rng, n int) []string {
 func init() {
 	register(&Prop{
 		ID:        "C12",
+		Ambient:   ambientQueryOpts,
 		Rule:      "Maps as for C07 (depth <= 3); 1-4 key pairs whose old parts are derived plain/wildcard/indexed paths and whose new parts come from a 10-path alphabet (so new paths frequently equal or extend one another); shorthand and malformed pairs; non-trivial = a non-empty Map was built; distinct = distinct op lines",
 		Gen:       c12Gen,
 		Exec:      c12Exec,
